@@ -100,6 +100,15 @@ def config_module(mem, data, table, elems, start, two_instances=False, utf8_name
             m.datas.append(('active', 0, i32_const(60), segbytes(5, 0x71)))
             m.datacount = True
             obs['init'] = fn('memory.init', 'iii', '', local_get(0) + local_get(1) + local_get(2) + memory_init(0), [(70, 0, 17)])
+        elif data == 'active+passive':
+            # an ACTIVE segment in front of the first passive one (the order matters where the segments are laid out as one blob / one declaration list)
+            m.datas.append(('active', 0, i32_const(50), segbytes(9, 0x21)))
+            m.datas.append(('passive', 0, b'', segbytes(11, 0x31)))
+            m.datas.append(('active', 0, i32_const(70), segbytes(4, 0x41)))
+            m.datas.append(('passive', 0, b'', segbytes(3, 0x51)))
+            m.datacount = True
+            obs['init'] = fn('memory.init', 'iii', '', local_get(0) + local_get(1) + local_get(2) + memory_init(1), [(80, 0, 11)])
+            obs['init3'] = fn('memory.init of the second passive segment', 'iii', '', local_get(0) + local_get(1) + local_get(2) + memory_init(3), [(30, 0, 3)])
         elif data == 'globaloff':
             m.datas.append(('active', 0, global_get(0), segbytes(18, 0x33)))
             m.datas.append(('active', 0, i32_const(65536 - 19), segbytes(19, 0xc0)))
@@ -231,11 +240,13 @@ def main(tier):
                     for start in ('none', 'defined', 'imported'):
                         jobs.append(('config', config_module(mem, data, table, elems, start), {'cc': 'gcc', 'cflags': ('-O1',)}))
     # defined shared memory (threads build of the runtime) and the external data-segment blob (-d gnu-ld) for the layouts with several segments
+    for mem in ('defined', 'imported'):
+        jobs.append(('config', config_module(mem, 'active+passive', 'none', 0, 'none'), {'cc': 'gcc', 'cflags': ('-O1',)}))
     for data in ('none', 'one', 'overlap', 'passive+active'):
         for start in ('none', 'defined'):
             jobs.append(('config', config_module('shared', data, 'none', 0, start), {'cc': 'gcc', 'cflags': ('-O1', '-pthread'), 'defines': ('-DWASM_THREADS_PTHREADS',)}))
     for mem in ('defined', 'imported'):
-        for data in ('overlap', 'passive+active', 'globaloff'):
+        for data in ('overlap', 'passive+active', 'globaloff', 'active+passive'):
             b = config_module(mem, data, 'defined', 1, 'defined')
             b.desc += ' -d gnu-ld'
             jobs.append(('config', b, {'cc': 'gcc', 'cflags': ('-O1',), 'w2c2_args': ('-d', 'gnu-ld')}))
